@@ -1111,7 +1111,7 @@ def rt_stretch(inp):
 
 def fam_stretch(tier="quick", seed=0):
     xs = [-2.0, -0.0, 0.0, 1e-9, 0.1, 0.25, 0.5, 0.5, 0.9, 1.0, 1.0000001, 7.0, "nan", "inf", "-inf"]
-    grid = [0.01, 0.1, 1.0 / 3.0, 0.5, 1.0, 2.0, 10.0, 1000.0] + ([0.003, 0.7, 3.0, 50.0, 400.0] if tier == "thorough" else [])
+    grid = [0.01, 0.1, 1.0 / 3.0, 0.5, 1.0, 2.0, 10.0, 1000.0] + ([0.03, 0.7, 3.0, 30.0, 400.0] if tier == "thorough" else [])  # (0.003 would underflow 0.05**333 in float64)
     for copy in (True, False):
         yield dict(cls="LinearStretch", params={}, xs=xs, copy=copy)
         for v in grid:
@@ -1406,9 +1406,10 @@ def fam_norm(tier="quick", seed=0):
             continue
         sets = list(_datasets_for(dtype))
         if np.dtype(dtype).kind == "f":
-            r = rng.normal(size=24).round(3).tolist()
-            r[3], r[11] = "nan", "inf"
-            sets.append(("random", r))
+            for j in range(6 if tier == "thorough" else 1):
+                r = (rng.normal(size=24) * (10.0 ** rng.integers(-2, 3))).round(4).tolist()
+                r[3], r[11] = "nan", "inf"
+                sets.append((f"random{j}", r))
         for dname, xs in sets:
             for preset in PRESET_SPEC:
                 for given in (True, False):
